@@ -167,11 +167,13 @@ Definition cast_const (t lt : ty) (lc : Z) : res :=
     if is_int lt && is_float t then
       Val (cast t (if is_signed lt then op_f_of_Z F (i64 lc) else op_f_of_Z F lc))
     else if is_float lt && is_int t then
+      (* the tests are written as "inside the range", so that a NaN (every comparison false) is diagnosed;
+         with Flocq's operations the HostUB arms are unreachable (Proofs/EvalProofsFloat.v, float_to_int_never_host_ub) *)
       if is_signed t then
-        if op_flt F lc mtwo63 || op_fge F lc two63 then Diag
+        if negb (op_fge F lc mtwo63 && op_flt F lc two63) then Diag     (* !(f >= -0x1p63 && f < 0x1p63) *)
         else match op_f_trunc F lc with Some z => Val (cast t (of_i64 z)) | None => HostUB end
       else
-        if op_fle F lc mone || op_fge F lc two64 then Diag     (* f <= -1.0 || f >= 0x1p64 *)
+        if negb (op_fgt F lc mone && op_flt F lc two64) then Diag       (* !(f > -1.0 && f < 0x1p64) *)
         else match op_f_trunc F lc with Some z => Val (cast t (z mod M64)) | None => HostUB end
     else Val (cast t lc)
   end.
